@@ -494,6 +494,7 @@ pub fn generate(seed: u64, knobs: &Knobs) -> C10Scenario {
         _ => rh.range(6, knobs.max_ops.max(6)),
     };
     let mut ops: Vec<Op> = vec![Op::Pass];
+    let mut generator_override: Option<String> = opts.generator_override.clone();
     let mut since_pass = 0usize;
     let mut only_removal_since_pass = true;
     let sim = backend == Backend::SimFs;
@@ -1061,6 +1062,21 @@ pub fn generate(seed: u64, knobs: &Knobs) -> C10Scenario {
                 new_ops.push(Op::Touch {
                     path: world.sources[i].path.clone(),
                 });
+            }
+            99 if knobs.layer == Layer::L1 && !in_place && !graph_mode => {
+                // the library caller changes the generator override of its options
+                let current = generator_override.clone();
+                let next = match rh.below(4) {
+                    0 => None,
+                    1 => Some("dense".to_owned()),
+                    2 => Some("readable".to_owned()),
+                    _ => Some("retain_lines".to_owned()),
+                };
+                if next == current {
+                    continue;
+                }
+                generator_override = next.clone();
+                new_ops.push(Op::GeneratorOverride { name: next });
             }
             99 if in_place => {
                 // in place: the user puts back the text a source had before (undo): the file
